@@ -280,7 +280,11 @@ structure Bext where
   timeHigh : Nat
   version : Nat
   umid : List Byte            -- 64
-  loud : List Nat             -- 5 x 16 bit
+  l1 : Nat
+  l2 : Nat
+  l3 : Nat
+  l4 : Nat
+  l5 : Nat                    -- loudness_value … max_shortterm_loudness (16 bit each)
   reserved : List Byte        -- 180
   history : List Byte         -- coding_history [0 .. coding_history_size)
 deriving DecidableEq, Repr
@@ -293,7 +297,9 @@ def BEXT_STRUCT_16K : Nat := 608 + 16384
 def Bext.wf (b : Bext) : Prop :=
   b.description.length = 256 ∧ b.originator.length = 32 ∧ b.originatorRef.length = 32 ∧ b.date.length = 10 ∧
   b.time.length = 8 ∧ b.timeLow < 2 ^ 32 ∧ b.timeHigh < 2 ^ 32 ∧ b.version < 2 ^ 16 ∧ b.umid.length = 64 ∧
-  b.loud.length = 5 ∧ (∀ v ∈ b.loud, v < 2 ^ 16) ∧ b.reserved.length = 180
+  b.l1 < 2 ^ 16 ∧ b.l2 < 2 ^ 16 ∧ b.l3 < 2 ^ 16 ∧ b.l4 < 2 ^ 16 ∧ b.l5 < 2 ^ 16 ∧ b.reserved.length = 180
+
+instance (b : Bext) : Decidable b.wf := by unfold Bext.wf; exact inferInstance
 
 /-- the coding history as broadcast_var_set leaves it: `src` = the caller's bytes after the fixed part
     (datasize - 608 of them), `line` = the line gen_coding_history produces (added in SFM_WRITE only) -/
@@ -308,7 +314,7 @@ def setBext (mode : Mode) (line : List Byte) (info : Bext) : Bext :=
 
 def writeBext (b : Bext) : List Byte :=
   mk "bext" ++ le4 (BEXT_MIN + b.history.length) ++ b.description ++ b.originator ++ b.originatorRef ++ b.date ++ b.time ++
-  le4 b.timeLow ++ le4 b.timeHigh ++ le2 b.version ++ b.umid ++ b.loud.flatMap le2 ++ zeros 180 ++ b.history
+  le4 b.timeLow ++ le4 b.timeHigh ++ le2 b.version ++ b.umid ++ le2 b.l1 ++ le2 b.l2 ++ le2 b.l3 ++ le2 b.l4 ++ le2 b.l5 ++ zeros 180 ++ b.history
 
 /-- cut `n` bytes off the front -/
 def splitAtN (n : Nat) (b : List Byte) : List Byte × List Byte := (b.take n, b.drop n)
@@ -323,7 +329,8 @@ def readBext (chunk : List Byte) : Option Bext :=
            date := (p.drop 320).take 10, time := (p.drop 330).take 8,
            timeLow := ofLE ((p.drop 338).take 4), timeHigh := ofLE ((p.drop 342).take 4), version := ofLE ((p.drop 346).take 2),
            umid := (p.drop 348).take 64,
-           loud := [ofLE ((p.drop 412).take 2), ofLE ((p.drop 414).take 2), ofLE ((p.drop 416).take 2), ofLE ((p.drop 418).take 2), ofLE ((p.drop 420).take 2)],
+           l1 := ofLE ((p.drop 412).take 2), l2 := ofLE ((p.drop 414).take 2), l3 := ofLE ((p.drop 416).take 2),
+           l4 := ofLE ((p.drop 418).take 2), l5 := ofLE ((p.drop 420).take 2),
            reserved := zeros 180,
            history := (p.drop 602).take (size - BEXT_MIN) }
 
@@ -342,6 +349,8 @@ def CART_MIN : Nat := 2048
 def CART_STRUCT_16K : Nat := 2052 + 16384
 
 def Cart.wf (c : Cart) : Prop := c.head.length = 748 ∧ c.reserved.length = 276 ∧ c.url.length = 1024
+
+instance (c : Cart) : Decidable c.wf := by unfold Cart.wf; exact inferInstance
 
 /-- cart_var_set: text normalised like the coding history (no added line), then `len += (len & 1) ? 1 : 2`: one NUL
     and, for an even length, one more byte of the malloc'ed block that nothing has written (`junk`) -/
@@ -375,6 +384,8 @@ deriving DecidableEq, Repr
 
 def Cue.wf (c : Cue) : Prop :=
   c.indx < 2 ^ 32 ∧ c.position < 2 ^ 32 ∧ c.fcc < 2 ^ 32 ∧ c.chunkStart < 2 ^ 32 ∧ c.blockStart < 2 ^ 32 ∧ c.sampleOffset < 2 ^ 32
+
+instance (c : Cue) : Decidable c.wf := by unfold Cue.wf; exact inferInstance
 
 def serCue (c : Cue) : List Byte :=
   le4 c.indx ++ le4 c.position ++ le4 c.fcc ++ le4 c.chunkStart ++ le4 c.blockStart ++ le4 c.sampleOffset
@@ -474,10 +485,12 @@ def readSmpl (chunk : List Byte) : Option Inst :=
     some { gain := 1, basenote := wrapS 8 note, detune := detuneDec pitch, velLo := 0, velHi := 127, keyLo := 0, keyHi := 127,
            loops := ls.take 16 }
 
+def normLoop (l : Loop) : Loop := ⟨loopTypeDec (loopTypeEnc l.mode), l.start, l.stop, l.count⟩
+
 /-- what survives of an instrument in a WAV file -/
 def normInst (i : Inst) : Inst :=
-  { gain := 1, basenote := wrapS 8 i.basenote, detune := detuneDec (detuneEnc i.detune), velLo := 0, velHi := 127, keyLo := 0, keyHi := 127,
-    loops := i.loops.map fun l => ⟨loopTypeDec (loopTypeEnc l.mode), l.start, l.stop, l.count⟩ }
+  { gain := 1, basenote := wrapS 8 (wrapU 32 i.basenote), detune := detuneDec (detuneEnc i.detune), velLo := 0, velHi := 127, keyLo := 0, keyHi := 127,
+    loops := i.loops.map normLoop }
 
 /-! ## 8. The handle: which calls are accepted, and what a closed WAV file holds -/
 
